@@ -421,7 +421,8 @@ def oracle_sort(o, P, R):
         a = [r.ident() for r in R if key_tuple(keys, r) == kt]
         b = [r.ident() for r in P if key_tuple(keys, r) == kt]
         if a != b:
-            out.append(('sort:unstable', 'rows with equal sort key changed their relative order', a[:6], b[:6]))
+            out.append(('sort:amount:zero-or-bare-amount-among-commodities' if odd else 'sort:unstable',
+                        'rows with equal sort key changed their relative order', a[:6], b[:6]))
             break
     if not totals_are_prefix_sums(R) or (R and P and vec(R[-1].tot) != vec(P[-1].tot)):
         out.append(('sort:total', 'running / grand total of the sorted register is not the sum of its rows', None, None))
